@@ -1,4 +1,5 @@
 import ErrModel.Proofs.EngineBasic
+import ErrModel.Proofs.Regular
 /-
   C09 — Formatting verbs are mutually consistent.
 
@@ -56,6 +57,51 @@ theorem C09_other_verbs (red : Bool) (sp : Spec) (e : Err)
     formatVerb red sp e = .bad (b!"%!" ++ [sp.verb] ++ b!"(" ++ e.ty.tstr ++ b!")") := by
   obtain ⟨h1, h2, h3, h4, h5⟩ := h
   simp [formatVerb, h1, h2, h3, h4, h5, badVerb]
+
+/-! ### `%v` prints exactly Error()
+
+  `errText` is the model of the `Error()` method (the `error` stream of the correspondence
+  check compares it with the real method on every case).  `RegE` (Proofs/Regular.lean) is the
+  domain: every string a layer shows on one line is ASCII, starts and ends with a non-newline
+  byte, has no two newlines in a row, and stored redactable strings are well-formed.
+  Outside that domain the two differ by design (the one-line form stops at the first
+  newline of a layer; `Error()` does not) and the check decides the rest of the matrix by
+  the oracle. -/
+
+/-- for every error over regular text, whatever the depth of the chain, the one-line plain
+    rendering is byte for byte the Error() text -/
+theorem C09_v_is_error (e : Err) (h : RegE e) : render false false e = errText e :=
+  render_v_eq_errText e h
+
+/-- `%v` and `%s` print exactly Error() -/
+theorem C09_v_s_print_error (sp : Spec) (e : Err) (h : sp.plainSV) (hw : sp.width = none ∨ sp.width = some 0)
+    (hp : sp.prec = none) (hr : RegE e) : formatVerb false sp e = .direct (errText e) := by
+  rw [C09_v_s_direct sp e h hw hp, C09_v_is_error e hr]
+
+/-- `%v` and `%s` print the same thing (no regularity needed) -/
+theorem C09_v_eq_s (sp sp' : Spec) (e : Err) (h : sp.plainSV) (h' : sp'.plainSV)
+    (hw : sp.width = none ∨ sp.width = some 0) (hw' : sp'.width = none ∨ sp'.width = some 0)
+    (hp : sp.prec = none) (hp' : sp'.prec = none) : formatVerb false sp e = formatVerb false sp' e := by
+  rw [C09_v_s_direct sp e h hw hp, C09_v_s_direct sp' e h' hw' hp']
+
+/-- the hypotheses are met by a concrete three-layer chain whose text has an inner newline and a
+    hidden (hint) layer -/
+def exE : Err := .wrap [] (.withPrefix (b!"ctx")) (.wrap [] (.withHint (b!"h\n\n")) (.leaf [] (.errorString (b!"boom\nline2"))))
+theorem exE_text : errText exE = b!"ctx: boom\nline2" := by
+  simp [exE, errText, wrapText, leafText]
+  decide
+theorem exE_reg : RegE exE := by
+  simp only [exE, RegE, LeafKind.regular, WrapKind.regular, leafText]
+  refine ⟨⟨⟨⟨by simp [Ascii], by decide, by simp [NlOKb, nl], by decide⟩, trivial⟩, trivial⟩, Or.inr ⟨?_, ?_, ⟨?_, by decide, ?_, by decide⟩⟩⟩
+  · have : lexL (b!"ctx") = [.b 99, .b 116, .b 120] := by decide
+    rw [this]; intro x hx; simp at hx; rcases hx with rfl | rfl | rfl <;> simp
+  · have : lexL (b!"ctx") = [.b 99, .b 116, .b 120] := by decide
+    rw [this]; simp [LW, lw]
+  · have : stripMarkers (b!"ctx") = b!"ctx" := by decide
+    rw [this]; simp [Ascii]
+  · have : stripMarkers (b!"ctx") = b!"ctx" := by decide
+    rw [this]; simp [NlOKb, nl]
+example : render false false exE = b!"ctx: boom\nline2" := by rw [C09_v_is_error _ exE_reg, exE_text]
 
 /-! ### the verbose form: one numbered entry per visible layer, then the types line -/
 
